@@ -394,3 +394,88 @@ def thdm_model_guard(seed=0, repo=None):
                 'data_members_copied': len(leafs)}
     finally:
         native.cleanup(wd)
+
+# ------------------------------------------------------------------------------------------------ generic native evaluation at a counterexample
+HEADERS = {'MSSMNoFV_onshell': 'gm2calc/MSSMNoFV_onshell.hpp', 'THDM': 'gm2calc/THDM.hpp', 'SM': 'gm2calc/SM.hpp'}
+
+def native_model_eval(wd, cls, values, exprs, extra_decls='', repo=None, pre_stmts=''):
+    """construct a REAL object of class cls, overwrite its data members with `values` ({leaf name: number}; names as in the counterexample, an optional
+    'm.' prefix is ignored; complex leaves as name.re / name.im), evaluate the C++ expressions `exprs` (object is called m) and return their values.
+    Members not mentioned keep the values of a default-constructed object."""
+    import subprocess, re
+    w = get_world(repo) if repo else get_world(None)
+    leafs = dict(_leafs(w, cls))
+    vals = {}
+    for k, v in values.items():
+        k2 = k[2:] if k.startswith('m.') else k
+        vals[k2] = float(v)
+    assigns = []
+    cplx = {}
+    for nm, acc in leafs.items():
+        if nm not in vals:
+            continue
+        mm = re.match(r'std::(real|imag)\((.*)\)$', acc)
+        if mm:
+            cplx.setdefault(mm.group(2), {})[mm.group(1)] = vals[nm]
+        elif acc.startswith('static_cast'):
+            continue
+        else:
+            assigns.append('   %s = %s;' % (acc, float(vals[nm]).hex()))
+    for acc, parts in cplx.items():
+        assigns.append('   %s = std::complex<double>(%s, %s);' % (acc, float(parts.get('real', 0.0)).hex(), float(parts.get('imag', 0.0)).hex()))
+    body = '\n'.join('   try { std::printf("%%a\\n", (double)(%s)); } catch (const gm2calc::Error& e) { std::printf("throw %%s\\n", e.what()); }' % e for e in exprs)
+    src = '''
+#include <cstdio>
+#include <cmath>
+#include <complex>
+#include <string>
+#include <sstream>
+#include <iostream>
+#include <Eigen/Core>
+#define private public
+#define protected public
+#include "%s"
+#undef private
+#undef protected
+#include "gm2calc/gm2_1loop.hpp"
+#include "gm2calc/gm2_2loop.hpp"
+#include "gm2calc/gm2_uncertainty.hpp"
+#include "gm2calc/gm2_error.hpp"
+%s
+int main() {
+   gm2calc::%s m;
+%s
+%s
+%s
+   return 0;
+}
+''' % (HEADERS[cls], extra_decls, cls, '\n'.join(assigns), pre_stmts, body)
+    exe = native.build_against_library(wd, src, name='ceval')
+    r = subprocess.run([exe], capture_output=True, text=True, timeout=120)
+    out = []
+    for ln in r.stdout.splitlines():
+        if ln.startswith('throw'):
+            out.append(ln)
+        else:
+            try:
+                out.append(float.fromhex(ln) if ln not in ('nan', '-nan', 'inf', '-inf') else float(ln))
+            except ValueError:
+                out.append(ln)
+    return out, len(assigns)
+
+def replay_equality(wd, cls, model, expr, tol=1e-9, extra_decls=''):
+    """generic replay of a failed `code value == contract value' goal: the real function is evaluated at the counterexample's data members;
+    reproduced iff the real value differs from what the contract demands there"""
+    viol = (model or {}).get('_violated_equality')
+    vals = (model or {}).get('_float', {})
+    if not viol:
+        return None, 'the verifier gave no evaluated equality for this goal'
+    out, n = native_model_eval(wd, cls, vals, [expr], extra_decls=extra_decls)
+    if not out or not isinstance(out[0], float):
+        return None, 'real code did not return a number at the counterexample: %s' % (out,)
+    real, want, code = out[0], viol['contract_side'], viol['code_side']
+    scale = max(abs(real), abs(want), 1e-300)
+    off = abs(real - want) > tol * scale
+    agree = abs(real - code) <= 1e-6 * max(abs(real), abs(code), 1e-300)
+    return bool(off), 'real %s = %r at the counterexample (%d data members set); the contract demands %r; the extracted code gives %r%s' % (
+        expr, real, n, want, code, '' if agree else '  [real and extracted value differ: extractor fault?]')
